@@ -723,8 +723,14 @@ impl CoreApi for Enforcer {
     }
 
     async fn load_policy(&mut self) -> Result<()> {
+        // keep the loaded policy: a failing adapter must not leave the
+        // enforcer empty or half loaded
+        let backup = self.model.get_model().clone();
         self.model.clear_policy();
-        self.adapter.load_policy(&mut *self.model).await?;
+        if let Err(e) = self.adapter.load_policy(&mut *self.model).await {
+            *self.model.get_mut_model() = backup;
+            return Err(e);
+        }
 
         if self.auto_build_role_links {
             self.build_role_links()?;
@@ -734,10 +740,16 @@ impl CoreApi for Enforcer {
     }
 
     async fn load_filtered_policy<'a>(&mut self, f: Filter<'a>) -> Result<()> {
+        let backup = self.model.get_model().clone();
         self.model.clear_policy();
-        self.adapter
+        if let Err(e) = self
+            .adapter
             .load_filtered_policy(&mut *self.model, f)
-            .await?;
+            .await
+        {
+            *self.model.get_mut_model() = backup;
+            return Err(e);
+        }
 
         if self.auto_build_role_links {
             self.build_role_links()?;
